@@ -6,6 +6,10 @@ export VERIF_SEEDED_DIR=${VERIF_SEEDED_DIR:-/verif/seeded}
 for g in $(ls /tmp/wt3 | grep -v prompt | grep -v agent); do for b in b1 b2 b3; do
   [ -d /tmp/wt3/$g/out/$b ] || continue
   id=benign-$g-$b
-  [ -f $VERIF_SEEDED_DIR/$id/meta.json ] && continue
+  # (BENIGN_SINCE=<file>: run again unless the stored result is newer than that file)
+  if [ -f $VERIF_SEEDED_DIR/$id/meta.json ]; then
+    [ -z "$BENIGN_SINCE" ] && continue
+    [ $VERIF_SEEDED_DIR/$id/meta.json -nt "$BENIGN_SINCE" ] && continue
+  fi
   /venv/bin/python -m harness.benigntool /tmp/wt3/$g /tmp/wt3/$g/out/$b $id 2>&1 | grep "^benign\|^   C"
 done; done
